@@ -10,9 +10,9 @@ import vf
 
 UINT_MAX = 2**32 - 1
 EINVAL, E2BIG, ENOBUFS = -22, -7, -105
-K_UTF8 = "utf8_decode_accepts_illformed"
-K_ENOBUFS = "utf16_to_wtf8_enobufs_length"
-K_ASSERT = "wtf8_to_utf16_assert_10ffff"
+# The three defects this check found (keys utf8_decode_accepts_illformed, utf16_to_wtf8_enobufs_length,
+# wtf8_to_utf16_assert_10ffff) are repaired in /repo (a779eb0, 0064931, 8661803) and in the model; their
+# witnesses are regression cases in corpus/C18/idna*.txt and are plain violations if they come back.
 
 # ---------------------------------------------------------------------------
 # independent references (written from the standards, not from idna.c)
@@ -262,7 +262,8 @@ def selftest():
 
 
 # ---------------------------------------------------------------------------
-# comparison with classification of the modelled (known) defects
+# comparison; a monitor returns (key, reason): key None = plain violation, a key would name a defect that is
+# modelled faithfully and listed in known_findings.json (none at present: the three found so far are repaired)
 # ---------------------------------------------------------------------------
 class Cmp:
     def __init__(self, chk):
@@ -342,7 +343,7 @@ def mon_u8(case, line):
     r = utf8_first(bs)
     if r is None:
         if code != UINT_MAX:
-            return K_UTF8, "ill-formed UTF-8 accepted: uv__utf8_decode1(%s) = U+%04X, %d bytes" % (case, code, used)
+            return None, "ill-formed UTF-8 accepted: uv__utf8_decode1(%s) = U+%04X, %d bytes" % (case, code, used)
     elif (code, used) != r:
         return None, "well-formed %s decoded to %s/%d bytes, not U+%04X/%d" % (case, code, used, r[0], r[1])
     return None
@@ -354,7 +355,7 @@ def mon_u8blk(case, line):
     want = count_wellformed(unhex(pre), int(k), alpha)
     got = int(line.split()[2])
     if got > want:
-        return K_UTF8, "ill-formed UTF-8 accepted: %d of the sequences %s+%s bytes are accepted, %d are well-formed" \
+        return None, "ill-formed UTF-8 accepted: %d of the sequences %s+%s bytes are accepted, %d are well-formed" \
             % (got, pre, k, want)
     if got < want:
         return None, "well-formed UTF-8 rejected: %d of the sequences %s+%s bytes accepted, %d are well-formed" \
@@ -371,7 +372,7 @@ def mon_idna(case, line):
         return None, "uv__idna_toascii wrote outside the destination (cap %d, input %s)" % (cap, hx)
     want_rc, want = toascii_ref(bs, cap)
     if rc >= 0 and not wellformed_utf8(bs):
-        return K_UTF8, "ill-formed UTF-8 accepted: uv__idna_toascii(%s) = %d \"%s\"" % (
+        return None, "ill-formed UTF-8 accepted: uv__idna_toascii(%s) = %d \"%s\"" % (
             hx, rc, "".join(chr(c) for c in out[:-1]))
     if rc != want_rc:
         return None, "uv__idna_toascii(%s, cap %d) = %d, reference says %d" % (hx, cap, rc, want_rc)
@@ -409,7 +410,7 @@ def mon_w16(case, line):
             return None, "uv_utf16_to_wtf8(%s) into %d bytes: %s, expected UV_ENOBUFS and %s" % (
                 us, cap, f["buf"], hexs(ref[:cap] + [0]))
         if tl != len(ref):
-            return K_ENOBUFS, "uv_utf16_to_wtf8(%s) into a buffer of %d bytes returns UV_ENOBUFS with length %d, " \
+            return None, "uv_utf16_to_wtf8(%s) into a buffer of %d bytes returns UV_ENOBUFS with length %d, " \
                 "the exact length is %d" % (us, cap, tl, len(ref))
     if 0 not in units:
         wl, bu, g = f["back"].split(",")
@@ -457,6 +458,13 @@ def boundary_wellformed():
     return out
 
 
+def corpus_lines(name):
+    p = os.path.join(vf.VERIF, "corpus", "C18", name)
+    if not os.path.exists(p):
+        return []
+    return [l.strip() for l in open(p) if l.strip() and not l.startswith("#")]
+
+
 def u8_cases(rng, thorough):
     blocks = []
     for b in range(256):
@@ -472,7 +480,7 @@ def u8_cases(rng, thorough):
             for b2 in BOUND_BYTES:
                 blocks.append("%02x%02x 2 *" % (b1, b2))
     blocks = [b for k in range(vf.JOBS) for b in blocks[k::vf.JOBS]]
-    lines = ["e44141", "f18080", "e480", "f180", "f0908080", "f48fbfbf", "f4908080", "eda080", "c080", "c3"]
+    lines = corpus_lines("idna_u8.txt") + ["e44141", "f18080", "e480", "f180", "f0908080", "f48fbfbf", "f4908080", "eda080", "c080", "c3"]
     for s in boundary_wellformed():
         lines.append(hexs(s))
         for cut in range(1, len(s)):
@@ -535,9 +543,7 @@ def idna_cases(rng, thorough):
             blocks.append("%d %d 40 c3a9 2ee4b8ad" % (lo, lo + step))   # "é" <scalar> ".中"
     blocks = [b for k in range(vf.JOBS) for b in blocks[k::vf.JOBS]]     # spread the slow ones over the shards
     lines = []
-    corpus = os.path.join(vf.VERIF, "corpus", "C18", "idna.txt")
-    if os.path.exists(corpus):
-        lines += [l.strip() for l in open(corpus) if l.strip() and not l.startswith("#")]
+    lines += corpus_lines("idna.txt")
     scal = set(BOUND_SCALARS) | {c + d for c in BOUND_SCALARS for d in (-1, 1)}
     scal |= set(range(0, 0x110000, 7 if thorough else 53))
     for cp in sorted(c for c in scal if 0 <= c < 0x110000 and not 0xD800 <= c <= 0xDFFF):
@@ -570,7 +576,7 @@ def idna_cases(rng, thorough):
 
 
 def w16_cases(rng, thorough):
-    lines = []
+    lines = corpus_lines("idna_w16.txt")
     for u in range(0x10000):
         lines.append("L %d %04x" % (u % 5, u))
     for u in list(range(1, 0x10000, 61)) + BOUND_UNITS:
@@ -704,17 +710,11 @@ def run(chk, lib, thorough):
         aborted = r.returncode != 0
         chk.count("asserts of uv_wtf8_to_utf16", inp + "=>" + str(aborted))
         if aborted != (m == "assert"):
-            chk.violation("uv_wtf8_to_utf16(%s) in an assert-enabled build %s, the model says %s"
-                          % (inp, "aborts" if aborted else "returns", m),
+            chk.violation("uv_wtf8_to_utf16(%s) in an assert-enabled build %s, the model says %s%s"
+                          % (inp, "aborts" if aborted else "returns", m,
+                             " (an assert fails on input that uv_wtf8_length_as_utf16 accepted)" if aborted else ""),
                           {"kind": "correspondence", "obligation": "asserts of uv_wtf8_to_utf16", "mode": "w8abort",
                            "case": inp, "impl": r.stdout[-300:], "model": m}, found_input=aborted)
-        elif aborted and K_ASSERT not in cmp.pending:
-            cmp.counts[K_ASSERT] = cmp.counts.get(K_ASSERT, 0) + 1
-            cmp.pending[K_ASSERT] = (
-                "uv_wtf8_to_utf16(%s) aborts in an assert-enabled build: assert(code_point < 0x10FFFF) "
-                "rejects the valid scalar U+10FFFF that uv_wtf8_length_as_utf16 accepted" % inp,
-                {"kind": "monitor", "obligation": "asserts of uv_wtf8_to_utf16", "mode": "w8abort", "case": inp,
-                 "impl": r.stdout[-300:], "known_key": K_ASSERT})
     chk.corr("asserts of uv_wtf8_to_utf16", len(ainputs))
 
     # (e) the design-time probe, replayed on the real library
